@@ -726,7 +726,7 @@ fn classify(msg: &str) -> &'static str {
         "err:salt"
     } else if m.contains("Unknown critical subpacket") || m.contains("doesn't match signature version") {
         "err:area"
-    } else if m.contains("cannot verify message before reading it to the end") {
+    } else if m.contains("cannot verify message before reading it to the end") || m.contains("cannot verify message before reading the final signature packet") {
         "err:noneslot"
     } else if m.contains("no signatures found") || m.contains("missing subkey bindings") {
         "err:nosig"
@@ -1289,6 +1289,7 @@ pub fn run(ctx: &mut Ctx) {
     inline::run(ctx, &fixes);
     text::run(ctx, &fixes);
     multi::run_all(ctx, &fixes);
+    multi::run_pairing(ctx, &fixes);
     cleartext::run(ctx, &fixes);
     cert::run(ctx, &fixes);
     embedded::run(ctx, &fixes);
